@@ -47,3 +47,56 @@ PROPS['C18'] = dict(
     replay=lambda v, term: direct.c18_replay(v, term),
     rule='all code lists of length <= 3 (quick) / 4 (thorough) over a 12-token alphabet, colour groups at every position, random lists over 21 tokens, irregular strings; as list and as str, both add_erroneous flags; pairs (prior state, new codes); non-trivial = more than one token',
 )
+
+
+# ---------------------------------------------------------------- history-based properties
+def hist_prop(pid, oracle_props, weights, n_quick, n_thorough, steps_q=10, steps_t=24, hg=None, extra=None,
+              extra_oracle=None, rule=''):
+    hg = dict(hg or {})
+    def run(rep, rng, tier, term):
+        n = n_quick if tier == 'quick' else n_thorough
+        steps = steps_q if tier == 'quick' else steps_t
+        kw = dict(hg)
+        kw['weights'] = weights
+        ov, dv = runner.explore(rep, oracle_props, n, steps, rng.randrange(1 << 30), kw, term=term, extra_oracle=extra_oracle)
+        if extra:
+            ov2, dv2 = extra(rep, rng, tier, term)
+            ov, dv = ov + ov2, dv + dv2
+        return ov, dv
+    return dict(run=run, replay=_replay_history(oracle_props, extra_oracle),
+                rule=rule or ('random operation histories over a pool of <= 7 AnsiString/AnsiStr objects, ranges chosen on/next to/between change points, '
+                              'settings from a palette built to conflict (two values + clear code per effect group, colour groups, verbatim, equal-valued duplicates); '
+                              'after every step every pool object is observed (text, per-character settings with identities, 8 renderings, flags, self-check, append probe) on implementation and model; '
+                              'non-trivial = some object with >= 2 change points or an error path; distinct = hash of the history'))
+
+
+BUILD_W = {'new': 3, 'from': 1, 'apply': 8, 'remove': 3, 'iadd': 2, 'add': 1.5, 'slice': 1.5, 'pad': 0.7, 'assign': 0.5, 'replace': 0.7, 'simplify': 0.3}
+
+def W(**kw):
+    w = dict(BUILD_W)
+    w.update(kw)
+    return w
+
+PROPS['C04'] = dict(coq=['Properties/C04.v'], **hist_prop(
+    'C04', {'C04'}, W(slice=10, index=3, clip=4, iter=1.5), 1500, 40000, hg={'odd': 'mix'}))
+PROPS['C05'] = dict(coq=['Properties/C05.v'], **hist_prop(
+    'C05', {'C05'}, W(add=8, iadd=8, join=3, slice=4), 1500, 40000, hg={'odd': 'mix'}))
+PROPS['C06'] = dict(coq=['Properties/C06.v'], **hist_prop(
+    'C06', {'C06'}, W(apply=14, slice=2), 1500, 40000, hg={'odd': 'mix'}))
+PROPS['C07'] = dict(coq=['Properties/C07.v'], **hist_prop(
+    'C07', {'C07'}, W(remove=12, clear=0.5, umatch=1), 1500, 40000, hg={'odd': 'mix'}))
+PROPS['C08'] = dict(coq=['Properties/C08.v'], **hist_prop(
+    'C08', {'C08'}, None, 1200, 30000, steps_q=12, steps_t=40, hg={'odd': 'mix'}))
+PROPS['C09'] = dict(coq=['Properties/C09.v'], **hist_prop(
+    'C09', {'C09'}, None, 1200, 30000, steps_q=12, steps_t=40, hg={'odd': 'mix', 'bad': 'mix'}))
+PROPS['C11'] = dict(coq=['Properties/C11.v'], **hist_prop(
+    'C11', {'C11'}, W(split=5, splitlines=2, partition=3, strip=3, removeprefix=1.5, removesuffix=1.5, case=2, assign=3,
+                      replace=6, expandtabs=1), 1500, 40000, hg={'odd': 'mix'}))
+PROPS['C12'] = dict(coq=['Properties/C12.v'], **hist_prop(
+    'C12', {'C12'}, W(pad=12, tostr=6), 1500, 40000, hg={'odd': 'mix'}))
+PROPS['C17'] = dict(coq=['Properties/C17.v'], **hist_prop(
+    'C17', {'C17'}, W(sat=6, find=12), 1500, 40000, hg={'odd': 'mix'}))
+PROPS['C01'] = dict(coq=['Properties/C01.v'], **hist_prop(
+    'C01', {'C01'}, W(tostr=2), 1200, 30000, hg={'odd': False}))
+PROPS['C15'] = dict(coq=['Properties/C15.v'], **hist_prop(
+    'C15', {'C15'}, W(tostr=1), 1000, 30000, hg={'odd': True}))
